@@ -8,6 +8,7 @@
 package verifrt
 
 import (
+	"sync"
 	"math"
 	"encoding/hex"
 	"encoding/json"
@@ -339,3 +340,19 @@ func LeadingZerosOK(name string, b []byte) bool {
 // NativeRetries: how often a harness repeats an experiment whose outcome depends on the Go runtime's
 // unspecified choices (map iteration order): n natively, once symbolically (all orders are explored there).
 func NativeRetries(n int) int { return n }
+
+// Concurrent: the calls may be executed by different goroutines at the same time. The symbolic run records
+// their lock operations and shared accesses and asks the solver for an interleaving with a data race; natively
+// they run in parallel goroutines (replayed under the race detector).
+func Concurrent(fs ...func()) {
+	var wg sync.WaitGroup
+	for _, f := range fs {
+		wg.Add(1)
+		go func(f func()) {
+			defer wg.Done()
+			defer func() { recover() }()
+			f()
+		}(f)
+	}
+	wg.Wait()
+}
